@@ -67,6 +67,12 @@ CLAIMS = {
     note="Trusted: tokio read_exact/write_all semantics on the ghost stream, from_utf8/trim_end/as_bytes stubs (UTF-8 length uninterpreted; responses assumed to fit u32), R13 (one task per connection). handle_command is an arbitrary function in this unit, so the PUT/GET payload round trip is not yet under contract (the native family checks it on a small grid only).",
     technique="contract-based deductive verification (Verus/Z3): loop invariant over a ghost stream on the extracted real function; native replay through a shimmed build of the real file",
     design="4/C24"),
+ "C20": dict(
+    level="proof",
+    text="Metadata::snapshot and Metadata::restore are extracted and proved: snapshot returns exactly the encoding of the current state; restore installs exactly the decoded state or, on a decode error, changes nothing; with the bincode round-trip law the theorem 'restore(snapshot(s)) reproduces s' is then discharged for all states. The law's side condition (symmetric serde field attributes on ClusterState/TopicState) is computed from the source on every run and is itself an obligation. For the Raft adapter, the region of MemStateMachine::build_snapshot that produces the snapshot bytes is extracted; its obligation 'the bytes are the application state machine's snapshot' fails - a genuine defect (it serialises an always-empty side map), listed as a known finding.",
+    note="Trusted: bincode as enc/dec with the round-trip law (A-BINCODE), RwLock elision (try_read/try_write modelled as possibly failing), derive(Default). Not executable offline; the adapter finding has no executed counterexample. install_snapshot and 'stays equal after the same subsequent commands' (determinism of apply, C18's unit) are not separate obligations.",
+    technique="contract-based deductive verification (Verus/Z3) of extracted real functions / regions",
+    design="4/C20"),
 }
 
 NOT_APPLICABLE = {
